@@ -22,7 +22,7 @@ PREAMBLE = ('From Coq Require Import ZArith List.\nImport ListNotations.\n'
 RUN_FN = 'run_case'
 READY = '.ready'
 KINDS = ['exitinfo', 'aborted', 'oom']
-INSTANCES = ['tm.web#0000000011', 'tm.web#0000000012', 'ab.db#0000000003']
+INSTANCES = ['tm.web#0000000011', 'tm.web#0000000012', 'ab.db-x_y.z#0000000003']   # dash, underscore, dot in the app part
 
 
 # ------------------------------------------------------------------ generator
